@@ -126,7 +126,39 @@ def run_fw_hist(case):
 
 
 # ------------------------------------------------------------------ generator side
+def gen_uf_binomial(rng):
+    """binomial trees: merge roots pairwise so that trees of rank k (depth k) arise, then read from the deepest leaves -
+    the shape on which path compression actually rewrites several pointers"""
+    k = rng.randint(2, 5)
+    n = (1 << k) * rng.randint(1, 2) + rng.randint(0, 3)
+    ops = []
+    step = 1
+    while step < (1 << k):
+        for base in range(0, n - step, 2 * step):
+            a, b = base, base + step
+            ops.append(("union", a, b) if rng.random() < 0.5 else ("union", b, a))
+        step *= 2
+    for _ in range(rng.randint(3, 25)):
+        r = rng.random()
+        x, y = rng.randrange(n), rng.randrange(n)
+        if r < 0.4:
+            ops.append(("find", x, 0))
+        elif r < 0.6:
+            ops.append(("connected", x, y))
+        elif r < 0.75:
+            ops.append(("union", x, y))
+        elif r < 0.85:
+            ops.append(("components", 0, 0))
+        elif r < 0.93:
+            ops.append(("sizes", 0, 0))
+        else:
+            ops.append(("count", 0, 0))
+    return {"n": n, "ops": ops}
+
+
 def gen_uf_hist(rng, nmax=64, maxops=200):
+    if rng.random() < 0.25:
+        return gen_uf_binomial(rng)
     n = rng.choice([1, 2, 3, 4, 5, 6, 8, 12, 16, 33, nmax]) if rng.random() < 0.7 else rng.randint(1, nmax)
     k = rng.randint(1, maxops)
     ops = []
